@@ -322,7 +322,7 @@ def _set(c, path, val):
 def mutate(rng, tag, coords):
     """Returns (operator name, mutated coordinates)."""
     ops = ["number", "number", "number", "drop", "add", "wrap", "unwrap", "empty", "truncate1", "truncate2",
-           "reverse", "equal_ends", "int_for_float", "none"]
+           "reverse", "equal_ends", "int_for_float", "none", "ends_a_hair_apart", "ends_a_hair_apart"]
     op = rng.choice(ops)
     c = copy.deepcopy(coords)
     if op == "none":
@@ -337,6 +337,32 @@ def mutate(rng, tag, coords):
         ps = _paths_to_nums(c)
         p = rng.choice(ps)
         return op, _set(c, p, int(_get(c, p)))
+    if op == "ends_a_hair_apart":
+        # the start a hair AFTER the end (one ulp, 1e-12 or 1e-10 relative): reversed is reversed, however slightly
+        import math as _m
+
+        def later(x):
+            x = float(x)
+            return rng.choice([_m.nextafter(x, _m.inf), x * (1 + 1e-12) if x else 5e-324, x * (1 + 1e-10) if x else 1e-300, x + 1e-9])
+        if tag == "TimeInterval":
+            return op, [later(c[1]), float(c[1])]
+        if tag == "BoundingBox":
+            k = rng.choice([0, 1])
+            c2 = [float(v) for v in c]
+            c2[k] = later(c2[k + 2])
+            if k == 1 and c2[1] > MAXF:
+                c2[1], c2[3] = float(MAXF), _m.nextafter(float(MAXF), 0.0)
+            return op, c2
+        if tag == "LineString":
+            c2 = copy.deepcopy(c)
+            c2[0][0] = later(c2[-1][0])
+            return op, c2
+        if tag == "MultiLineString":
+            c2 = copy.deepcopy(c)
+            ln = rng.choice(c2)
+            ln[0][0] = later(ln[-1][0])
+            return op, c2
+        return "none", c
     lists = _paths_to_lists(c)
     if not lists:
         if op == "wrap":
